@@ -133,6 +133,19 @@ pub mod into_metadata_key {
 pub use as_metadata_key::AsMetadataKey;
 pub use into_metadata_key::IntoMetadataKey;
 pub struct Iter<'a> { pub inner: HIter<'a> }
+// Values wraps the same (name, value) iterator (it needs the name to tell the side); Keys wraps http::header::Keys, seen here
+// as a ghost sequence of the names still to come (A-http-29)
+pub struct Values<'a> { pub inner: HIter<'a> }
+pub struct HKeys<'a> { pub rest: Ghost<Seq<Seq<char>>>, pub m: &'a HeaderMap }
+impl<'a> HKeys<'a> {
+    #[verifier::external_body]
+    pub fn next(&mut self) -> (r: Option<&'a HeaderName>)
+        ensures
+            old(self).rest@.len() == 0 ==> r is None && final(self).rest@ == old(self).rest@,
+            old(self).rest@.len() > 0 ==> (r matches Some(k) && k@ == old(self).rest@[0] && final(self).rest@ == old(self).rest@.skip(1)),
+    { unimplemented!() }
+}
+pub struct Keys<'a> { pub inner: HKeys<'a> }
 '''
 
 
@@ -270,5 +283,37 @@ def build():
                     KeyAndValueRef::Binary(k, v) => is_bin_key(old(self).inner.rest@[0].0) && k.inner@ == old(self).inner.rest@[0].0 && v.inner@ == old(self).inner.rest@[0].1,
                 }) && final(self).inner.rest@ == old(self).inner.rest@.skip(1))'''),
              Clause('N2_end', 'old(self).inner.rest@.len() == 0 ==> r is None'),
+         ])
+    u.item(MP, 'enum', 'KeyRef')
+    u.fn(MP, 'next', within="impl<'a> Iterator for Keys<'a>", header="impl<'a> Keys<'a> {", close=True, display='Keys::next',
+         sig_edits=[lambda t: t.sub_code('R9', r'Self::Item', "KeyRef<'a>")],
+         closures={0: dict(params="key: &'a HeaderName", ret="(x: KeyRef<'a>)",
+                           ensures=['''match x {
+                    KeyRef::Ascii(k) => !is_bin_key(key@) && k.inner@ == key@,
+                    KeyRef::Binary(k) => is_bin_key(key@) && k.inner@ == key@,
+                }'''])},
+         ensures=[
+             Clause('K1_each_key_is_presented_on_its_own_side',
+                    '''old(self).inner.rest@.len() > 0 ==> (r matches Some(x) && (match x {
+                    KeyRef::Ascii(k) => !is_bin_key(old(self).inner.rest@[0]) && k.inner@ == old(self).inner.rest@[0],
+                    KeyRef::Binary(k) => is_bin_key(old(self).inner.rest@[0]) && k.inner@ == old(self).inner.rest@[0],
+                }) && final(self).inner.rest@ == old(self).inner.rest@.skip(1))'''),
+             Clause('K2_end', 'old(self).inner.rest@.len() == 0 ==> r is None'),
+         ])
+    u.item(MP, 'enum', 'ValueRef')
+    u.fn(MP, 'next', within="impl<'a> Iterator for Values<'a>", header="impl<'a> Values<'a> {", close=True, display='Values::next',
+         sig_edits=[lambda t: t.sub_code('R9', r'Self::Item', "ValueRef<'a>")],
+         closures={0: dict(params="item: (&'a HeaderName, &'a HeaderValue)", ret="(x: ValueRef<'a>)",
+                           ensures=['''match x {
+                    ValueRef::Ascii(v) => !is_bin_key(item.0@) && v.inner@ == item.1@,
+                    ValueRef::Binary(v) => is_bin_key(item.0@) && v.inner@ == item.1@,
+                }'''])},
+         ensures=[
+             Clause('V1_each_value_is_presented_on_the_side_of_its_key',
+                    '''old(self).inner.rest@.len() > 0 ==> (r matches Some(x) && (match x {
+                    ValueRef::Ascii(v) => !is_bin_key(old(self).inner.rest@[0].0) && v.inner@ == old(self).inner.rest@[0].1,
+                    ValueRef::Binary(v) => is_bin_key(old(self).inner.rest@[0].0) && v.inner@ == old(self).inner.rest@[0].1,
+                }) && final(self).inner.rest@ == old(self).inner.rest@.skip(1))'''),
+             Clause('V2_end', 'old(self).inner.rest@.len() == 0 ==> r is None'),
          ])
     return u
